@@ -55,11 +55,11 @@ def param2json_schema_property(param, required):
             ), "Only basic Literal support is implemented, not {}".format(
                 parsed_typ.value.id
             )
-            enum = sorted(
-                map(
-                    cdd.shared.ast_utils.get_value,
-                    cdd.shared.ast_utils.get_value(parsed_typ.slice).elts,
-                )
+            members = cdd.shared.ast_utils.get_value(parsed_typ.slice)
+            enum = (
+                sorted(map(cdd.shared.ast_utils.get_value, members.elts))
+                if hasattr(members, "elts")
+                else [members]  # `Literal['single']`: the slice is the constant itself
             )
             _param.update(
                 {
